@@ -484,6 +484,22 @@ def len_eq(fx: ast.AST) -> Optional[Tuple[ast.AST, str, int]]:
     return None
 
 
+def known_empty(atoms, name: str) -> Optional[bool]:
+    """what the facts say about the local list `name`: True = empty, False = not empty, None = nothing.
+    `len(x) == 0`, `len(x) > 0`, `not x`, `x` are all read."""
+    for a, pol in atoms:
+        if isinstance(a, ast.Name) and a.id == name:
+            return not pol
+        le = len_eq(a)
+        if le is not None and isinstance(le[0], ast.Name) and le[0].id == name:
+            _x, op, k = le
+            if (op == "Eq" and k == 0) or (op == "LtE" and k == 0) or (op == "Lt" and k == 1):
+                return pol
+            if (op == "NotEq" and k == 0) or (op == "Gt" and k == 0) or (op == "GtE" and k == 1):
+                return not pol
+    return None
+
+
 def new_call_parts(t: Term) -> Optional[Dict[str, Term]]:
     """fields of an ast.Call construction term."""
     if t[0] == "new" and t[1] == "Call":
